@@ -66,6 +66,8 @@ type lockInfo struct {
 	entryLock map[*ssa.Function]lockState
 	unlocks   map[*ssa.Function][]string // non-deferred unlock positions
 	deferred  map[*ssa.Function]int
+	leaks     map[*ssa.Function][]string // returns reachable with a lock taken here still held
+	lockers   map[*ssa.Function]bool     // functions that take the lock themselves
 }
 
 // isMutexOp recognises (*sync.RWMutex).Lock etc. on the client's mutex field.
@@ -145,7 +147,8 @@ func analyseLocks(c *Ctx, pkgRel, typeName string) *lockInfo {
 		caller *ssa.Function
 		lock   lockState
 		pos    string
-	}{}, entryLock: map[*ssa.Function]lockState{}, unlocks: map[*ssa.Function][]string{}, deferred: map[*ssa.Function]int{}}
+	}{}, entryLock: map[*ssa.Function]lockState{}, unlocks: map[*ssa.Function][]string{}, deferred: map[*ssa.Function]int{},
+		leaks: map[*ssa.Function][]string{}, lockers: map[*ssa.Function]bool{}}
 	for i := 0; i < st.NumFields(); i++ {
 		ft := st.Field(i).Type()
 		if n, ok := ft.(*types.Named); ok && n.Obj().Pkg() != nil && n.Obj().Pkg().Path() == "sync" && strings.HasSuffix(n.Obj().Name(), "Mutex") {
@@ -269,6 +272,64 @@ func (li *lockInfo) scan(c *Ctx, fn *ssa.Function, fresh map[*ssa.Function]bool,
 			}
 		}
 	}
+	// may-analysis for lock leaks: can an exit be reached with a lock this function took still
+	// held and no deferred unlock registered?
+	{
+		type leakState struct {
+			held     bool // may hold a lock acquired in this function
+			deferred bool // a deferred unlock is registered on every path
+			seen     bool
+		}
+		li.leaks[fn] = nil
+		ls := map[*ssa.BasicBlock]leakState{order[0]: {seen: true}}
+		for iter := 0; iter < 6; iter++ {
+			for _, b := range order {
+				st := ls[b]
+				if !st.seen {
+					continue
+				}
+				for _, instr := range b.Instrs {
+					switch x := instr.(type) {
+					case *ssa.Defer:
+						if op, ok := li.mutexOp(x.Common()); ok && (op == "Unlock" || op == "RUnlock") {
+							st.deferred = true
+						}
+					case *ssa.Call:
+						if op, ok := li.mutexOp(x.Common()); ok {
+							switch op {
+							case "Lock", "RLock":
+								st.held = true
+							case "Unlock", "RUnlock":
+								st.held = false
+							}
+						}
+					case *ssa.Return:
+						if st.held && !st.deferred && iter == 5 {
+							li.leaks[fn] = append(li.leaks[fn], c.pos(x.Pos()))
+						}
+					}
+				}
+				for _, sc := range b.Succs {
+					o := ls[sc]
+					if !o.seen {
+						ls[sc] = leakState{held: st.held, deferred: st.deferred, seen: true}
+					} else {
+						ls[sc] = leakState{held: o.held || st.held, deferred: o.deferred && st.deferred, seen: true}
+					}
+				}
+			}
+		}
+		li.lockers[fn] = false
+		for _, b := range order {
+			for _, instr := range b.Instrs {
+				if call, ok := instr.(*ssa.Call); ok {
+					if op, ok := li.mutexOp(call.Common()); ok && (op == "Lock" || op == "RLock") {
+						li.lockers[fn] = true
+					}
+				}
+			}
+		}
+	}
 	for _, b := range order {
 		st := in[b]
 		if st > lkExcl {
@@ -356,7 +417,9 @@ func checkC14(c *Ctx, r *Report) {
 	for _, name := range []string{"Client", "SerialClient"} {
 		li := analyseLocks(c, "", name)
 		c14Type(c, r, li, name, false)
+		lockLeakRule(c, r, li, "R14.6", name)
 	}
+	r.floor("R14.6", 4)
 	// R14.5: what a caller receives must not alias memory the client reuses for the next call:
 	// do() returns a fresh copy of a function-local receive buffer
 	clientLoopItems(c, r, "R7.2", "R14.5", "the frame handed on is a copy of received[0:total]")
@@ -511,4 +574,34 @@ func findMethod(li *lockInfo, name string) *ssa.Function {
 		}
 	}
 	return nil
+}
+
+// lockLeakRule: every function of the type that takes the mutex releases it on every path to
+// every return (explicitly, or through a deferred unlock registered on all paths): otherwise
+// the next call on the same value blocks forever.
+func lockLeakRule(c *Ctx, r *Report, li *lockInfo, rule, typeName string) {
+	var fns []*ssa.Function
+	for fn, is := range li.lockers {
+		if is {
+			fns = append(fns, fn)
+		}
+	}
+	sort.Slice(fns, func(i, j int) bool { return fns[i].String() < fns[j].String() })
+	for _, fn := range fns {
+		r.instance(rule, 1)
+		id := fnID(fn)
+		r.funcs[id] = true
+		if len(li.leaks[fn]) == 0 {
+			r.ok(rule, id, "every return is reached with the "+typeName+" mutex released or with a deferred unlock registered on all paths", c.pos(fn.Pos()), true)
+		} else {
+			seen := map[string]bool{}
+			for _, p := range li.leaks[fn] {
+				if seen[p] {
+					continue
+				}
+				seen[p] = true
+				r.fail(rule, id, "a return can be reached with the "+typeName+" mutex still held and no deferred unlock: every later call on this value blocks forever", p, "", "lock-leak")
+			}
+		}
+	}
 }
